@@ -217,6 +217,18 @@ impl NRunner {
                     _ => Some("abp-failed".into()),
                 }
             }
+            ["sess", da, up, down] => {
+                let da: u32 = da.parse().ok()?;
+                let base = lorawan_device::mac::Session::new(NwkSKey::from(NWK_KEY), AppSKey::from(APP_KEY), DevAddr::from_value(da));
+                let mut j = serde_json::to_value(&base).unwrap();
+                j["fcnt_up"] = serde_json::json!(up.parse::<u32>().ok()?);
+                j["fcnt_down"] = if *down == "-" { serde_json::json!(null) } else { serde_json::json!(down.parse::<u32>().ok()?) };
+                let sess: lorawan_device::mac::Session = serde_json::from_value(j).ok()?;
+                self.dev.set_session(sess);
+                self.nwk = NWK_KEY;
+                self.app = APP_KEY;
+                Some("ok".into())
+            }
             ["njoin"] => {
                 let r = self.dev.join(JoinMode::OTAA { deveui: DevEui::from([0x0b; 8]), appeui: AppEui::from([0x0a; 8]), appkey: AppKey::from(ROOT_KEY) });
                 let s = show_result(r);
